@@ -150,7 +150,7 @@ def run(ctx):
             sC20.rule_paste(ctx), sC20.rule_stack(ctx), sC20.rule_hoist(ctx),
             sC20.rule_rewrite(ctx, 'main', floor=200), sC20.rule_inplace(ctx, 'main', floor=10), sC20.rule_short(ctx), sC20.rule_listdir(ctx), sC20.rule_kwmap(ctx, 'main', floor=150),
             sC20.rule_rewrite(ctx, 'cross-order', floor=200), sC20.rule_kwmap(ctx, 'routing', floor=150),
-            pC01.rule_inplace(ctx, pending=True)]       # C01-INPLACE-NAME (known finding K14), shared with C01
+            pC01.rule_inplace(ctx, pending=True, floor=0, tolerant=True)]       # C01-INPLACE-NAME (known finding K14), shared with C01
     # armed after the repair b8df1e725 (FINDING_2 of session s4-G5): sC20.rule_rewrite(ctx, 'cross-order', floor=200) -> C20-REWRITE-XORDER reports
     #   ParseTreeTransforms.PostParse._visit_assignment_node:cross-order on the unmodified tree: `a1, b1 = a2, *s2 = f(), g()` calls g before f.
     # NOT registered (FINDING_3 of session s4-G5, partially repaired by 43f76656b: Python-level lookups are evaluated once now; the rule's model does not know
